@@ -35,7 +35,8 @@ PANEL = [
 RULES = ["table", "strikethrough", "emphasis", "link", "list", "code", "blockquote", "backticks", "smartquotes", "replacements", "html_inline",
          "reference", "image", "heading", "fence", "entity", "escape", "autolink", "newline", "hr", "html_block", "lheading"]
 OPTS = [("breaks", True), ("breaks", False), ("xhtmlOut", False), ("xhtmlOut", True), ("langPrefix", "l-"), ("typographer", True), ("typographer", False),
-        ("html", False), ("html", True), ("maxNesting", 3), ("quotes", "«»‹›"), ("quotes", ["a", "b", "c", "d"])]
+        ("html", False), ("html", True), ("maxNesting", 3), ("quotes", "«»‹›"), ("quotes", ["a", "b", "c", "d"]),
+        ("highlight", "hl_a"), ("highlight", "hl_b"), ("highlight", None), ("highlight", "hl_a"), ("maxNesting", 40), ("typographer", True)]
 
 
 def floors(tier):
@@ -51,6 +52,17 @@ def rr_hr(self, tokens, idx, options, env):
 
 def rr_text(self, tokens, idx, options, env):
     return "[" + tokens[idx].content.replace("<", "&lt;").replace("&", "&amp;") + "]"
+
+
+def hl_a(content, lang, attrs):
+    return "<i>A:" + lang + "</i>"
+
+
+def hl_b(content, lang, attrs):
+    return "<b>B:" + content.replace("<", "&lt;").replace("&", "&amp;") + "</b>"
+
+
+HL = {"hl_a": hl_a, "hl_b": hl_b, None: None}
 
 
 def plugin_core(md, tag="P"):
@@ -78,9 +90,9 @@ def apply_config(md, st):
     if k in ("enable", "disable"):
         getattr(md, k)(list(st["names"]), True)
     elif k == "opt_item":
-        md.options[st["key"]] = copy.deepcopy(st["val"])
+        md.options[st["key"]] = HL[st["val"]] if st["key"] == "highlight" else copy.deepcopy(st["val"])
     elif k == "opt_attr":
-        setattr(md.options, st["key"], copy.deepcopy(st["val"]))
+        setattr(md.options, st["key"], HL[st["val"]] if st["key"] == "highlight" else copy.deepcopy(st["val"]))
     elif k == "rrule":
         md.add_render_rule(st["name"], rr_hr if st["name"] == "hr" else rr_text)
     elif k == "use":
